@@ -26,6 +26,7 @@
 #include <stdlib.h>
 #include <string.h>
 #include <unistd.h>
+#include <time.h>
 #include <limits.h>
 
 #include <vnacal.h>
@@ -675,6 +676,7 @@ static void end_case(void)
 }
 
 static int will_retry = 0;
+static long op_ms = 0;
 static void emit_event(ctx_t *c, int faulted, long a0, long a1)
 {
     sb_t line = {0};
@@ -700,6 +702,8 @@ static void emit_event(ctx_t *c, int faulted, long a0, long a1)
     sb_printf(&line, ",\"a0\":%ld,\"a1\":%ld", a0, a1);
     if (will_retry)
 	sb_puts(&line, ",\"retried\":true");
+    if (op_ms >= 50)
+	sb_printf(&line, ",\"ms\":%ld", op_ms);
     if (faulted) {
 	sb_printf(&line, ",\"fault\":\"%s:%d\"",
 		verif_alloc_fired_file ? verif_alloc_fired_file : "?",
@@ -825,8 +829,13 @@ retry:
 	verif_alloc_fired = 0;
 	if (watchdog_secs > 0)
 	    alarm(watchdog_secs);
+	struct timespec ts0, ts1;
+	clock_gettime(CLOCK_MONOTONIC, &ts0);
 	fn(c);
 	alarm(0);
+	clock_gettime(CLOCK_MONOTONIC, &ts1);
+	op_ms = (ts1.tv_sec - ts0.tv_sec) * 1000 +
+	    (ts1.tv_nsec - ts0.tv_nsec) / 1000000;
 	long a1 = verif_alloc_count;
 	int faulted = verif_alloc_fired;
 	if (faulted)
